@@ -18,3 +18,7 @@ func VH_C02_after_truncation() { vhTruncFunds("C02/after-truncation", true) }
 // VH_C09_after_truncation / VH_C03_after_truncation: structure of what stays and what is checkpointed.
 func VH_C09_after_truncation() { vhTruncStructure("C09/after-truncation", vhC07StructN()-1) }
 func VH_C03_after_truncation() { vhTruncStructure("C03/after-truncation", vhC07StructN()-1) }
+
+// VH_C03_resubmit_after_truncation: a vertex / transaction that a truncation moved to storage is still refused when it
+// is offered again by gossip or proposed again locally (replay protection survives the cut).
+func VH_C03_resubmit_after_truncation() { vhTruncResubmit("C03/resubmit-after-truncation") }
